@@ -239,3 +239,8 @@ func init() {
 	mutant("slot-returned-unconditionally", "conn-lifecycle", "serverConn.go", "		if strm.origType == FrameHeaders {\n			openStreams--\n		}\n\n		if strm.ctx != nil {", "		openStreams--\n\n		if strm.ctx != nil {")
 	mutant("origin-not-recorded", "conn-lifecycle", "serverConn.go", "	strm.origType = frameType\n", "")
 }
+
+func init() {
+	mutant("length-mismatch-reset-not-closed", "completion-closes-stream", "serverConn.go", "					sc.writeReset(strm.ID(), ProtocolError)\n					strm.SetState(StreamStateClosed)\n				} else {", "					sc.writeReset(strm.ID(), ProtocolError)\n				} else {")
+	mutant("header-limit-zero-is-a-limit", "request-mapping", "serverConn.go", "if sc.maxHeaderList > 0 && strm.headerListSize > sc.maxHeaderList {", "if sc.maxHeaderList >= 0 && strm.headerListSize > sc.maxHeaderList {")
+}
